@@ -286,7 +286,11 @@ func (x *Exec) siteCovered(fn *types.Func) bool {
 		return false
 	}
 	for _, s := range x.contract.Sites {
-		if s.Site == fn.Name() || s.Site == extName(fn) {
+		site := s.Site
+		if at := strings.Index(site, "@"); at >= 0 {
+			site = site[:at]
+		}
+		if site == fn.Name() || site == extName(fn) {
 			return true
 		}
 	}
@@ -301,7 +305,17 @@ func (x *Exec) siteObligations(call *ast.CallExpr, fn *types.Func, recv *Term, a
 		return
 	}
 	for _, s := range x.contract.Sites {
-		if s.Site != fn.Name() && s.Site != extName(fn) {
+		site := s.Site
+		if at := strings.Index(site, "@"); at >= 0 {
+			// NAME@n : only the n-th call of NAME in source order inside the function under contract
+			n := -1
+			fmt.Sscanf(site[at+1:], "%d", &n)
+			site = site[:at]
+			if x.callOrdinal(call, site) != n {
+				continue
+			}
+		}
+		if site != fn.Name() && site != extName(fn) {
 			continue
 		}
 		env := x.funcEnv(st)
@@ -320,6 +334,33 @@ func (x *Exec) siteObligations(call *ast.CallExpr, fn *types.Func, recv *Term, a
 		o.ClauseText = s.Text
 		x.siteCount[s.Site]++
 	}
+}
+
+// callOrdinal: position of call among the calls of a function named name in the body of the
+// function under contract (source order); -1 if the call is not syntactically in that body.
+func (x *Exec) callOrdinal(call *ast.CallExpr, name string) int {
+	n, found := 0, -1
+	ast.Inspect(x.fn.Body(), func(nd ast.Node) bool {
+		c, ok := nd.(*ast.CallExpr)
+		if !ok {
+			return true
+		}
+		var id *ast.Ident
+		switch f := ast.Unparen(c.Fun).(type) {
+		case *ast.Ident:
+			id = f
+		case *ast.SelectorExpr:
+			id = f.Sel
+		}
+		if id != nil && id.Name == name {
+			if c == call {
+				found = n
+			}
+			n++
+		}
+		return true
+	})
+	return found
 }
 
 func labelSuffix(l string) string {
